@@ -241,19 +241,136 @@ class CtrlCounterHarness(Harness):
         return None
 
 
+def build_soc_axil(T):
+    """the same SoC on an AXI-Lite main bus with a NATIVE AXI-Lite test-bench master (no adapter in between): its write and read
+    channels are independent, so a write and a read can wait for a silent slave at the same time"""
+    from litex.build.generic_platform import GenericPlatform
+    from litex.soc.integration.soc_core import SoCCore
+    from litex.soc.interconnect import axi
+    cls = type("TBSoC", (SoCCore,), dict(csr_map={}, interrupt_map={}, mem_map={"csr": 0x82000000}))
+    platform = GenericPlatform("", io=[])
+    with contextlib.redirect_stdout(io.StringIO()):
+        soc = cls(platform, clk_freq=int(1e6), cpu_type=None, bus_standard="axi-lite", bus_data_width=32, bus_interconnect="shared",
+                  bus_timeout=T, csr_data_width=32, integrated_rom_size=0, integrated_sram_size=0, integrated_main_ram_size=0, with_uart=False, with_timer=False,
+                  with_ctrl=True, ident="")
+        soc.add_rom("rom", origin=0x01000000, size=0x10, contents=list(ROM_INIT))
+        m = axi.AXILiteInterface(data_width=32, address_width=32)
+        soc.bus.add_master("tb", m)
+        soc.finalize()
+    return soc, m
+
+
+class SocAxilErrHarness(Harness):
+    """env = (w, r, nerr, quiet): w / r = 0 idle | 1 request up (AW+W resp. AR held until taken) | 2 waiting for the response;
+    nerr = cycles in which the time-out responder took over at least one request (= error pulses owed); quiet = idle cycles since the last response (saturating at 3).
+    Both directions only address unmapped memory, may start in any cycle while idle (so a write and a read can expire in the same
+    cycle, in adjacent cycles, or apart) and accept their responses at once.  Once both are idle for 3 cycles the counter must equal
+    the number of error responses received."""
+    conf_first = 60
+    conf_every = 17
+    cap = 400_000
+
+    def __init__(self, name, T, maxerr=4):
+        self.name, self.T, self.maxerr = name, T, maxerr
+        self.cov = dict(errors=0, overlapping=0, adjacent_responses=0)
+
+    def build(self):
+        self.soc, self.m = build_soc_axil(self.T)
+        return self.soc
+
+    def bind(self, D):
+        m = self.m
+        g = lambda ch, f: D.i(getattr(getattr(m, ch), f))
+        self.P = {ch: dict(valid=g(ch, "valid"), ready=g(ch, "ready")) for ch in ("aw", "w", "b", "ar", "r")}
+        self.aw_addr, self.ar_addr = g("aw", "addr"), g("ar", "addr")
+        self.w_data, self.w_strb = g("w", "data"), g("w", "strb")
+        self.b_resp, self.r_resp = g("b", "resp"), g("r", "resp")
+        self.status = D.i(self.soc.ctrl._bus_errors.status)
+
+    def env_init(self):
+        return (0, 0, 0, 3, 0)
+
+    def choices(self, env):
+        w, r, nerr, quiet, last = env
+        started = nerr + (1 if w else 0) + (1 if r else 0)
+        cw = [0, 1] if (w == 0 and started < self.maxerr) else [0]
+        cr = [0, 1] if (r == 0 and started + 0 < self.maxerr) else [0]
+        return [(a, b) for a in cw for b in cr if not (a and b and started + 2 > self.maxerr)]
+
+    def drive(self, v, env, ch):
+        w, r, nerr, quiet, last = env
+        P = self.P
+        wup = w == 1 or ch[0]
+        rup = r == 1 or ch[1]
+        v[P["aw"]["valid"]] = v[P["w"]["valid"]] = int(wup)
+        v[self.aw_addr] = UNMAPPED[1] if wup else 0xFFFFFFFC
+        v[self.w_data], v[self.w_strb] = 0xA5A5A5A5, 0xF
+        v[P["ar"]["valid"]] = int(rup)
+        v[self.ar_addr] = UNMAPPED[0] if rup else 0xFFFFFFFC
+        v[P["b"]["ready"]] = v[P["r"]["ready"]] = 1
+
+    def observe(self, v, env, ch):
+        w, r, nerr, quiet, last = env
+        P = self.P
+        hs = lambda c: bool(v[P[c]["valid"]] and v[P[c]["ready"]])
+        wup, rup = (w == 1 or ch[0]), (r == 1 or ch[1])
+        w2, r2 = (1 if wup else w), (1 if rup else r)
+        if wup and (hs("aw") != hs("w")):
+            return env, ("soc.axil.write_split", "AW and W of the timed-out write were not absorbed together"), 0
+        absorbed = 0
+        if wup and hs("aw"):
+            w2, absorbed = 2, 1
+        if rup and hs("ar"):
+            r2, absorbed = 2, 1
+        got = 0
+        if hs("b"):
+            if w != 2 or v[self.b_resp] != 2:
+                return env, ("timeout.resp", f"B handshake in write phase {w} with resp {v[self.b_resp]}"), 0
+            w2, got = 0, got + 1
+        if hs("r"):
+            if r != 2 or v[self.r_resp] != 2:
+                return env, ("timeout.resp", f"R handshake in read phase {r} with resp {v[self.r_resp]}"), 0
+            r2, got = 0, got + 1
+        if w and r:
+            self.cov["overlapping"] += 1
+        if got and last == 1:
+            self.cov["adjacent_responses"] += 1
+        # the module's error output is the OR of its write and read direction: two expiries in ONE cycle are one pulse (the responder
+        # takes both requests over in the same cycle then); expiries in different cycles are separate pulses.  nerr counts take-over cycles.
+        nerr2 = nerr + absorbed
+        self.cov["errors"] += got
+        busy = w2 or r2
+        quiet2 = 0 if (busy or got) else min(quiet + 1, 3)
+        if quiet >= 3 and not (w or r) and v[self.status] != nerr:
+            return env, ("soc.bus_errors", f"bus_errors shows {v[self.status]} after {nerr} expiry cycle(s) of the native AXI-Lite master "
+                         "(write and read time-outs expiring in adjacent cycles are two errors, in the same cycle one pulse)"), 0
+        return (w2, r2, nerr2, quiet2, 1 if got else (2 if last == 1 else 0)), None, 0
+
+    def cover_report(self):
+        return dict(self.cov)
+
+    def vacuity(self):
+        if not self.cov["overlapping"] or not self.cov["adjacent_responses"]:
+            return f"write and read time-outs never overlapped / never answered in adjacent cycles: {self.cov}"
+        return None
+
+
 V = {}
+AXIL = "soc.bus_errors(axi-lite,shared,bus_timeout=4,native AXI-Lite master: concurrent write / read time-outs)"
 CTRL = "soc.controller.bus_errors(free bus_error input)"
 for std, T, tier in (("wishbone", 8, "quick"), ("axi-lite", 12, "quick"), ("axi", 12, "quick"), ("wishbone", 5, "quick")):
     V[f"soc.bus_errors({std},shared,bus_timeout={T})"] = (tier, dict(std=std, T=T))
 
 
 def configs(tier):
-    return [(n,) for n, (t, kw) in V.items() if t == "quick" or tier == "thorough"] + [(CTRL,)]
+    return [(n,) for n, (t, kw) in V.items() if t == "quick" or tier == "thorough"] + [(CTRL,), (AXIL,)]
 
 
 def mk(name):
     if name == CTRL:
         return lambda: CtrlCounterHarness(name)
+    if name == AXIL:
+        return lambda: SocAxilErrHarness(name, 4)
     kw = V[name][1]
     return lambda: SocErrHarness(name, **kw)
 
